@@ -4,6 +4,7 @@ mod util;
 mod encop;
 mod decop;
 mod floatop;
+mod sinkop;
 mod dispop;
 mod intconv;
 mod c02op;
@@ -34,8 +35,10 @@ fn main() {
 fn dispatch(w: &[&str]) -> String {
     match w[0] {
         "enc" => encop::run(&w[1..]),
+        "enciter" => encop::run_iter(&w[1..]),
         "dec" => decop::run(&w[1..]),
         "fblk" => floatop::run(&w[1..]),
+        "sink" => sinkop::run_raw(&w[1..]), "sinkenc" => sinkop::run_enc(&w[1..]), "sinkval" => sinkop::run_val(&w[1..]),
         "display" => dispop::run(&w[1..]),
         "intconv" => intconv::run(&w[1..]),
         "seq" => decop::run_seq(&w[1..]),
